@@ -60,3 +60,16 @@ def parse? (s : String) : Option V :=
     | _ => none
 end V
 end PhotVerif.Model
+
+namespace PhotVerif.Model.V
+/-- IEEE `<`: false whenever a NaN is involved -/
+def lt : V → V → Bool
+  | fin a, fin b => decide (a < b)
+  | nan, _ => false
+  | _, nan => false
+  | ninf, ninf => false
+  | ninf, _ => true
+  | _, ninf => false
+  | pinf, _ => false
+  | _, pinf => true
+end PhotVerif.Model.V
